@@ -9,12 +9,10 @@ import (
 )
 
 func main() {
-	ps := []refstore.Pair{{K: "k1", V: "1"}, {K: "k2", V: "2"}, {K: "k3", V: "3"}}
+	ps := []refstore.Pair{{K: "k1", V: "7"}, {K: "k2", V: "10"}}
 	for _, q := range os.Args[1:] {
-		for _, b := range []bool{false, true} {
-			st := refstore.New(ps)
-			o := drive.Run(q, st, drive.Mode{Batch: b, Size: 2, Cache: true})
-			fmt.Printf("%q batch=%v status=%s rows=%v damage=%v\n", q, b, o.Status(), o.Rows, st.ArenaDamage())
-		}
+		st := refstore.New(ps)
+		o := drive.Run(q, st, drive.Mode{Size: 3, Cache: true})
+		fmt.Printf("%s\n  status=%s rows=%v err=%v calls=%d\n", q, o.Status(), o.Rows, o.Err(), len(st.Log()))
 	}
 }
